@@ -47,7 +47,11 @@ MANIFEST = {
             "arbitrary programs), C16_err_rec_pointer_stable (arbitrary programs, any number of threads, every schedule: the "
             "record handle returned by ly_err_get_rec/ly_err_new_rec names a live record whenever it is used after the lock was "
             "dropped; true since /repo 75f292f, the former 6-thread refutation witness is kept as Example "
-            "C16_former_err_rec_witness), C16_private_ops_schedule_independent, C16_log_temp_override_isolated (when library code silences the "
+            "C16_former_err_rec_witness), C16_private_ops_schedule_independent, C16_type_refcount_atomic_no_lost_update (reference "
+            "count of a compiled type of the shared schema taken / given back from private data trees with the atomic "
+            "operations: in every schedule the counter is its initial value plus the operations that took effect; "
+            "type_refcount_plain_increment_refuted: a plain ++ loses an increment or overwrites a decrement), "
+            "C16_log_temp_override_isolated (when library code silences the "
             "logger only through the thread-local override ly_temp_log_options - all compiled API programs do - a thread "
             "without an override of its own always logs with the options the application set, in every schedule; Example "
             "C16_log_global_window_visible: the same trial done with the process-wide ly_log_options() is seen by other "
@@ -60,11 +64,13 @@ MANIFEST = {
             "violations and every ly_err_last result. Oracle conc-serial: 2..8 threads on one context "
             "and one shared tree (parse XML/JSON/LYB with drawn parser options (OPAQ, STRICT, ONLY, NO_STATE, ORDERED), "
             "validation options and printer options, the threads' own ly_temp_log_options, validate, print, XPath, dup, diff, "
-            "apply, dictionary calls, schema find/print, failing parses + error reads, tight loops of failing parses that "
+            "apply, dictionary calls, schema find/print, failing parses + error reads, tight loops that duplicate / compare / diff / merge / free private trees full of instance-identifiers with key "
+            "and leaf-list predicates, leafrefs, unions, identityrefs, bits and enumeration keys, tight loops of failing parses that "
             "check code/message/path after each while other threads stay inside the OPAQ XML parser on documents with "
             "hundreds of leaf-list instances; shared-tree prints, find_path, find_xpath, eval_xpath, compare) must "
             "give every thread the results it gets alone in a fresh context, bring the dictionary back to the post-setup "
-            "size, never touch a table without its lock, leave the process-wide state as the case set it (ly_log_options round "
+            "size, never touch a table without its lock, leave every lysc_type.refcount of the shared schema at its value before the threads ran "
+            "(white box), leave the process-wide state as the case set it (ly_log_options round "
             "trip, ly_log_level, log callback, the main thread's temporary options, context options and change count), and "
             "(ThreadSanitizer build) raise no report.",
     "note": "Known finding (still in the code): canon-lazy-cache, with a deterministic forced-schedule replay on the release "
